@@ -32,3 +32,32 @@ else:
     s = s[:a] + block + '\n' + s[b:]
 open(p, 'w').write(s)
 print(len(rows), 'rows,', len(missed), 'initially missed')
+
+
+# --- 9.2: cost table from the committed evidence files ----------------------
+s = open(p).read()
+rows2 = []
+for f in sorted(glob.glob(os.path.join(HERE, 'evidence', 'C*.json'))):
+    e = json.load(open(f))
+    c = e['coverage']
+    hs = []
+    for b in c['bounds']:
+        if b['harness'] not in hs:
+            hs.append(b['harness'])
+    counts = dict((h, sum(1 for b in c['bounds'] if b['harness'] == h)) for h in hs)
+    rows2.append('| %s | %s | %s | %s | %s | %s | %.0f s | %.0f s |' % (
+        e['property_id'], e['tier'],
+        ', '.join('%s x%d' % (h, counts[h]) if counts[h] > 1 else h for h in hs),
+        format(c['states'], ','), format(c['transitions'], ','),
+        format(c['queries'], ','), c['solver_s'], e['wall_s']))
+block2 = '\n'.join(['<!-- COST-TABLE-BEGIN -->',
+    '| id | tier of the committed evidence | harnesses (x parameter sets) | leaves (paths) | decisions | solver queries | solver time | wall |',
+    '|---|---|---|---|---|---|---|---|'] + rows2 + ['<!-- COST-TABLE-END -->'])
+if '<!-- COST-TABLE-BEGIN -->' in s:
+    s = re.sub(r'<!-- COST-TABLE-BEGIN -->.*?<!-- COST-TABLE-END -->', lambda m: block2, s, flags=re.S)
+else:
+    a = s.index('| id | harnesses | leaves | wall |')
+    b = s.index('\nThorough bounds are in each', a)
+    s = s[:a] + block2 + '\n' + s[b:]
+open(p, 'w').write(s)
+print(len(rows2), 'cost rows')
